@@ -22,6 +22,9 @@ var shrinkableSources = map[string]string{
 	"hcl/v2.TraverseIndex": "the source range of an index step is `[key]` or the legacy `.N`: at least the two bytes being stripped",
 }
 
+// literalEndpointExceptions: reviewed, keyed function|side of the non-cursor endpoint.
+var literalEndpointExceptions = map[string]string{}
+
 func runE6More(p *Prog, r *Report) {
 	nLex, nShrink := 0, 0
 	for _, fn := range p.Funcs {
@@ -179,6 +182,121 @@ func runE6More(p *Prog, r *Report) {
 			return true
 		})
 	}
+	// E6.token-after-cursor / E6.literal-endpoints
+	nTok, nLitEnd := 0, 0
+	for _, fn := range p.Funcs {
+		if fn.Body == nil {
+			continue
+		}
+		info := fn.Info()
+		root := rootOf(fn)
+		isCursor := func(e ast.Expr) bool {
+			id, ok := ast.Unparen(e).(*ast.Ident)
+			if !ok {
+				return false
+			}
+			v, ok := info.ObjectOf(id).(*types.Var)
+			return ok && isHclPos(v.Type()) && (root.isParam(v) || fn.isParam(v))
+		}
+		ast.Inspect(fn.Body, func(n ast.Node) bool {
+			if lit, ok := n.(*ast.FuncLit); ok && lit != fn.Lit {
+				return false
+			}
+			switch x := n.(type) {
+			case *ast.ReturnStmt:
+				// return tokens[i+k].Range with k >= 1 in a scan for the token under the cursor
+				for _, res := range x.Results {
+					sel, ok := ast.Unparen(res).(*ast.SelectorExpr)
+					if !ok || sel.Sel.Name != "Range" {
+						continue
+					}
+					ix, ok := ast.Unparen(sel.X).(*ast.IndexExpr)
+					if !ok {
+						continue
+					}
+					if t := info.TypeOf(ix.X); t == nil || !typeIs(t, "hclsyntax", "Tokens") {
+						continue
+					}
+					nTok++
+					be, ok := ast.Unparen(ix.Index).(*ast.BinaryExpr)
+					if !ok || be.Op != token.ADD {
+						continue
+					}
+					if c, isC := constInt(info, be.Y); isC && c >= 1 {
+						r.Add("E6.token-after-cursor", fn.Name, "return "+exprStr(res), p.Pos(x), Violated,
+							"the range handed back for the cursor is that of a token *after* the one found under the cursor: it starts past the cursor, so the edit/prefix range built from it does not reach back to what was typed", true)
+					}
+				}
+			case *ast.CompositeLit:
+				if t := info.TypeOf(x); t == nil || !typeIs(t, "hcl/v2", "Range") {
+					return true
+				}
+				st, en := litField(x, "Start"), litField(x, "End")
+				if st == nil || en == nil || isCursor(st) == isCursor(en) {
+					return true
+				}
+				// only ranges that may be handed back matter (slicing ranges: bounds are E4.P3's)
+				var holder types.Object
+				switch par := p.Parent(x).(type) {
+				case *ast.AssignStmt:
+					for i, rhs := range par.Rhs {
+						if ast.Unparen(rhs) == ast.Expr(x) && i < len(par.Lhs) {
+							holder = baseObj(info, par.Lhs[i])
+						}
+					}
+				case *ast.ValueSpec:
+					for i, v := range par.Values {
+						if ast.Unparen(v) == ast.Expr(x) && i < len(par.Names) {
+							holder = info.ObjectOf(par.Names[i])
+						}
+					}
+				}
+				if holder != nil && !rangeVarEmitted(fn, holder) {
+					return true
+				}
+				nLitEnd++
+				other, side := st, "Start"
+				if isCursor(st) {
+					other, side = en, "End"
+				}
+				key := "hcl.Range{" + side + ": " + short(exprStr(other), 40) + ", cursor at the other end}"
+				// the other endpoint is X.Start (for Start) / X.End (for End) of a range X with a
+				// dominating X.ContainsPos(cursor), or an explicit byte comparison orders them
+				osel, _ := ast.Unparen(other).(*ast.SelectorExpr)
+				ok := fn.GuardsAt(x).Holds(func(a *Atom) bool {
+					if a.E == nil {
+						return false
+					}
+					if call, isCall := ast.Unparen(a.E).(*ast.CallExpr); isCall && a.Pol {
+						if s2, isSel := ast.Unparen(call.Fun).(*ast.SelectorExpr); isSel && s2.Sel.Name == "ContainsPos" && osel != nil && osel.Sel.Name == side {
+							if c := fn.Canon(s2.X); c != "" && c == fn.Canon(osel.X) {
+								return true
+							}
+						}
+					}
+					if be, isBe := ast.Unparen(a.E).(*ast.BinaryExpr); isBe {
+						txt := exprStr(be)
+						if strings.Contains(txt, exprStr(other)+".Byte") && strings.Contains(txt, ".Byte") && (be.Op == token.LEQ || be.Op == token.GEQ || be.Op == token.LSS || be.Op == token.GTR) {
+							return true
+						}
+					}
+					return false
+				})
+				if ok {
+					r.Add("E6.literal-endpoints", fn.Name, key, p.Pos(x), OK, "a dominating fact orders the cursor against the literal's other endpoint", true)
+				} else if ex := literalEndpointExceptions[fn.Name+"|"+side]; ex != "" {
+					r.Add("E6.literal-endpoints", fn.Name, key, p.Pos(x), Excepted, ex, true)
+				} else {
+					r.Add("E6.literal-endpoints", fn.Name, key, p.Pos(x), Violated,
+						"a range is built with the cursor at one end and "+exprStr(other)+" at the other without any fact ordering the two: with the cursor on the far side of that endpoint the range is inverted", true)
+				}
+			}
+			return true
+		})
+	}
+	r.Counts["E6.token-range-returns"] = nTok
+	r.Counts["E6.literals-with-one-cursor-endpoint"] = nLitEnd
+	r.ExpectMin("E6.token-range-returns", nTok, 1)
 	r.Counts["E6.lexer-calls"] = nLex
 	r.Counts["E6.shrunk-ranges"] = nShrink
 	r.ExpectMin("E6.lexer-calls", nLex, 2)
